@@ -844,7 +844,9 @@ class Gen18:
                 made[role] = args[role]
                 continue
             # sometimes reuse an object that already lives on the heap (sequences / aliasing)
-            if kind == "none" and w.ents and r.random() < self.cfg["p_reuse"]:
+            # (never for the power templates: an exponent taken from the heap may be an array of integers beyond
+            # 2**24, and unit ** 16777219 makes sympy allocate tens of gigabytes - a hang, not a verdict)
+            if kind == "none" and w.ents and r.random() < self.cfg["p_reuse"] and "pow" not in name:
                 args[role] = r.randrange(len(w.ents))
                 made[role] = args[role]
                 continue
